@@ -251,11 +251,13 @@ def make_pair(net, variant, rng):
         # stepped at least once after it joined
         i_rm = rng.randrange(2, max(3, n - 1))
         j_add = rng.randrange(i_rm + 1, max(i_rm + 2, n))
-        r1, v1 = sk.circ_state(8300.0, 63.0, 40.0, 100.0)
+        # (with station keeping the earlier carrier of the id flies higher: a LEO keeper that remembered *its* orbit would push the newcomer up)
+        hi, lo = (8300.0, 63.0, 40.0, 100.0), (7600.0, 30.0, 300.0, 10.0)
+        r1, v1 = sk.circ_state(*(lo if net.get("station_keeping") else hi))
         add = {"scope": "scenario_step", "scope_instance_id": 0, "start_time": sk.iso(start + timedelta(seconds=net["step"] * j_add)),
                "event_type": "target_addition", "tasking_engine_id": 1, "target_agent": sk.target_cfg(19700, r1, v1)}
         a["events"].append(copy.deepcopy(add))
-        r0, v0 = sk.circ_state(7600.0, 30.0, 300.0, 10.0)
+        r0, v0 = sk.circ_state(*(hi if net.get("station_keeping") else lo))
         old_sat = sk.target_cfg(19700, r0, v0)
         if net.get("station_keeping"):
             # both carriers of the id keep station (each about its own orbit)
